@@ -122,12 +122,28 @@ def _dispatch_job(job):
 
 # ---- (2) timeout / retry ---------------------------------------------------------------------------
 def _retry_job(job):
-    T, N, k = job  # reply after the k-th transmission (k = 0..N), or k = None: never
+    T, N, k, delta = job  # reply leaves `delta` s after the (k+1)-th transmission (k = 0..N), or k = None: never
     lib.reset_library()
     sock = GeckoUdpSocket()
     w, e = _engine(sock)
     sock.add_receive_handler(GeckoPacketProtocolHandler(socket=sock))
     parms = (PEER[0], PEER[1], SPA_ID, b"IOSx")
+    state = {"tx": 0, "answered": False}
+    orig_send = w.net.send
+
+    def send(src, dst, data):
+        # the peer: answers the (k+1)-th AVERS after `delta` seconds (so the answer can land inside the very
+        # receive wait during which the request's timeout elapses)
+        orig_send(src, dst, data)
+        if src == CLIENT and b"AVERS" in data:
+            state["tx"] += 1
+            if k is not None and not state["answered"] and state["tx"] == k + 1:
+                state["answered"] = True
+                w.net._seq += 1
+                w.net.socks[CLIENT].inbox.append((w.clock() + delta, w.net._seq,
+                                                  wire.frame(SPA_ID, b"IOSx", wire.svers((1, 2, 3), (4, 5, 6))), PEER))
+
+    w.net.send = send
     with stepped.patched_clock(w.clock):
         h = GeckoVersionProtocolHandler.request(1, parms=parms)
         h._timeout_in_seconds = T
@@ -135,7 +151,6 @@ def _retry_job(job):
         h._reset_timeout()
         sock.add_receive_handler(h)
         sock.queue_send(h, parms)
-    answered = False
     t_end = w.now() + (N + 2) * (T + 0.2) + 2.0
     removed_at = None
     tx_at_removal = None
@@ -144,10 +159,6 @@ def _retry_job(job):
     while w.now() < t_end:
         w.run_until(w.now() + 0.0005)
         tx = sum(1 for (t, d, dest) in e.mock.sent if b"AVERS" in d)
-        if k is not None and not answered and tx >= k + 1:
-            answered = True
-            w.net.clock.t = w.now()
-            w.net.send(PEER, CLIENT, wire.frame(SPA_ID, b"IOSx", wire.svers((1, 2, 3), (4, 5, 6))))
         if handled_at is None and h.en_build is not None:
             handled_at = w.now()
             tx_at_handled = tx
@@ -156,7 +167,7 @@ def _retry_job(job):
             tx_at_removal = tx
     tx = sum(1 for (t, d, dest) in e.mock.sent if b"AVERS" in d)
     why = None
-    case = f"T={T} N={N} reply={'never' if k is None else f'sent after transmission {k+1}'}"
+    case = f"T={T} N={N} reply={'never' if k is None else f'{delta}s after transmission {k+1}'}"
     if h in sock._receive_handlers:
         why = ("not-removed", f"{case}: handler still registered at the end")
     elif tx > 1 + N:
@@ -164,7 +175,7 @@ def _retry_job(job):
     elif handled_at is None and tx != 1 + N:
         # never answered in time (no reply, or it arrived after the budget was exhausted and the handler removed)
         why = ("retransmissions", f"{case}: unanswered, {tx} transmissions, expected exactly {1 + N}")
-    elif handled_at is None and k is not None and T >= 0.5:
+    elif handled_at is None and k is not None and T >= 0.5 and delta < T:
         why = ("not-handled", f"{case}: the reply was never handled although it arrived within the timeout")
     elif handled_at is not None and tx != tx_at_handled:
         why = ("after-answer", f"{case}: {tx - tx_at_handled} transmission(s) after the reply had been handled")
@@ -323,7 +334,8 @@ def run(ctx):
             ctx.violation(f"C20|{bad[0]}|raiser={job[1][1]}", bad[1], {"mode": "dispatch", "order": list(job[0]), "raiser": list(job[1])})
     ctx.log(f"(1) dispatch: {len(jobs)} handler configurations x 155 datagram sequences")
     # (2)
-    jobs = [(T, N, k) for T in (0.01, 0.05, 1.0) for N in range(4) for k in list(range(N + 1)) + [None]]
+    jobs = [(T, N, k, d) for T in (0.01, 0.03, 0.05, 1.0) for N in range(4) for k in list(range(N + 1)) + [None]
+            for d in ((0.002, 0.02, 0.045, 0.06) if k is not None else (0.0,))]
     for why, job in zip(core.pmap(ctx, _retry_job, jobs, chunksize=1), jobs):
         trans += 1
         states.add(("retry", job))
@@ -374,7 +386,7 @@ def run(ctx):
     ctx.set("states", len(states))
     ctx.set("transitions", trans)
     ctx.set("traces_validated_against_impl", trans)
-    ctx.sample({"retry": {"T": 0.05, "N": 2, "reply": "after transmission 2"}, "oracle": "2 transmissions in total, handler removed"})
+    ctx.sample({"retry": {"T": 0.03, "N": 2, "reply": "0.045 s after transmission 2"}, "oracle": "2 transmissions in total, handler removed"})
     ctx.sample({"handshake": {"lost transmissions per step": [10, 0, 2, 1]}, "oracle": "connected, block identical"})
     ctx.assume("engine iterations are stepped deterministically in virtual time (recvfrom timeout advances the clock by 50 ms); "
                "real threads only in (5), CPython GIL with switches at traced line boundaries")
